@@ -49,6 +49,7 @@ fn main() {
         "selftest" => check::cmd_selftest(&args[1..]),
         "gen" => check::cmd_gen(&args[1..]),
         "one" => check::cmd_one(&args[1..]),
+        "find" => check::cmd_find(&args[1..]),
         id if id.starts_with('C') => check::cmd_check(&args),
         _ => usage(),
     };
